@@ -209,7 +209,24 @@ static void part_b(bool thorough)
             if (k < 0) { break; }
         }
     }
-    R.part(std::string("decoder on arbitrary bytes: every string of length <=3 over all 256 byte values and of length 4..") + std::to_string(maxlen) + " over 18 lead/continuation class representatives, each with every stated length 0..len ending exactly at an inaccessible page; a_utf_length compared with stepping the decoder", bn, bnt);
+    // every lead byte followed by up to 8 continuation-like bytes, with one intruder at every position: the long forms (0xFC..0xFF) in both tiers
+    {
+        static const unsigned char CONT[3][8] = {{0x80, 0x80, 0x80, 0x80, 0x80, 0x80, 0x80, 0x80}, {0xBF, 0xBF, 0xBF, 0xBF, 0xBF, 0xBF, 0xBF, 0xBF}, {0x80, 0xBF, 0x9A, 0xA5, 0x80, 0xBF, 0x9A, 0xA5}};
+        static const unsigned char INTR[4] = {0x00, 0x7F, 0xC0, 0xFF};
+        unsigned char t[9];
+        for (int b0 = 0; b0 < 256; ++b0)
+        {
+            if (!R.shard.mine((uint64_t)b0)) { item += 3 * 33; continue; }
+            t[0] = (unsigned char)b0;
+            for (int c = 0; c < 3; ++c)
+            {
+                memcpy(t + 1, CONT[c], 8);
+                one_string(t, 9, item++);
+                for (int j = 1; j <= 8; ++j) { for (int q = 0; q < 4; ++q) { memcpy(t + 1, CONT[c], 8); t[j] = INTR[q]; one_string(t, 9, item++); } }
+            }
+        }
+    }
+    R.part(std::string("decoder on arbitrary bytes: every lead byte + 8 continuation bytes with an intruder at every position; every string of length <=3 over all 256 byte values and of length 4..") + std::to_string(maxlen) + " over 18 lead/continuation class representatives, each with every stated length 0..len ending exactly at an inaccessible page; a_utf_length compared with stepping the decoder", bn, bnt);
     R.sample("{\"bytes\":\"E282\",\"stated\":2,\"decode\":0,\"note\":\"truncated 3-byte sequence, the byte after the stated length is unreadable\"}");
 }
 
